@@ -397,8 +397,10 @@ CATCHSTMT = 'p0 = this_player (); e = catch (%s); VL ("catch " + e + (e && this_
 class C05(Prop):
     id = "C05"
     title = "after any LPC error the machine state is as before the failed call"
-    lean_modules = ["NV.C05.Exec", "NV.C05.Guards", "NV.C05.Props", "NV.C05.Witness"]
-    theorems = ["NV.C05.safeApply_all_arities", "NV.C05.call_all_arities", "NV.C05.safeFinish_total",
+    lean_modules = ["NV.C05.Exec", "NV.C05.Guards", "NV.C05.Tie", "NV.C05.Props", "NV.C05.Witness"]
+    theorems = ["NV.C05.tie_save_context", "NV.C05.tie_safe_recovery_point", "NV.C05.tie_restore_offset",
+                "NV.C05.tie_depth_tests", "NV.C05.tie_statement_shapes", "NV.C05.tie_frame_codes",
+                "NV.C05.safeFpFinish_total", "NV.C05.safeApply_all_arities", "NV.C05.call_all_arities", "NV.C05.safeFinish_total",
                 "NV.C05.saveContext_refuses_iff", "NV.C05.catch_refused", "NV.C05.safeApply_refused",
                 "NV.C05.context_chain_restored_any", "NV.C05.model_satisfies_spec", "NV.C05.exec_keeps_extension", "NV.C05.top_restores", "NV.C05.catch_yields_message_exec",
                 "NV.C05.guards_reset_first_level", "NV.C05.exec_guards", "NV.C05.execCore_guards",
@@ -449,6 +451,96 @@ class C05(Prop):
     not_covered = ["heart-beat switch-off in error_handler, the backend() main-loop resume point and reset()/clean_up() recovery are not exercised (the call_out() sweep resume point is)",
                    "C locals of efuns that are live across a longjmp (observed via ASan only)",
                    "value-stack depths inside efuns are approximated (only the depth after recovery is observed)"]
+
+    # ---- translator (T4-style): statement shapes / orders of the anchor functions, regenerated on every run ----
+    def gen_extra(self, ctx, bdir):
+        import re
+        from nvlib import extract as X
+
+        def body(path, name):
+            src = re.sub(r"/\*.*?\*/", "", open(os.path.join(E.REPO, path)).read(), flags=re.S)
+            m = re.search(r"^[^\n;{}]*\b%s\s*\([^;{]*\)\s*\{" % re.escape(name), src, re.M)
+            if not m:
+                raise X.TieBroken("fn:" + name, "function %s not found in %s" % (name, path))
+            i = src.index("{", m.start())
+            depth, j = 0, i
+            while j < len(src):
+                if src[j] == "{":
+                    depth += 1
+                elif src[j] == "}":
+                    depth -= 1
+                    if depth == 0:
+                        break
+                j += 1
+            return re.sub(r"/\*.*?\*/", "", src[i:j + 1], flags=re.S)
+
+        def need(site, cond, what):
+            if not cond:
+                raise X.TieBroken(site, "%s: expected statement not found (%s)" % (site, what))
+
+        def expr(e):
+            # tiny expression grammar: identifiers sp / num_arg / csp, integer literals, + and -
+            toks = re.findall(r"[A-Za-z_]\w*|\d+|[+\-]", e)
+            need("expr", "".join(toks) == re.sub(r"\s+", "", e), "expression outside the grammar: " + e)
+            names = {"sp": "sp", "num_arg": "numArg", "csp": "csp"}
+            return " ".join(names.get(t, t) for t in toks)
+
+        out = []
+        sc = body("src/error_context.c", "save_context")
+        m_sp = re.search(r"econ->save_sp\s*=\s*([^;]+);", sc)
+        m_csp = re.search(r"econ->save_csp\s*=\s*([^;]+);", sc)
+        need("save_context", m_sp and m_csp, "econ->save_sp / save_csp assignments")
+        out.append("/-- save_context: `econ->save_sp = %s;` -/\ndef saveContextSaveSp (sp : Nat) : Nat := %s" % (m_sp.group(1), expr(m_sp.group(1))))
+        out.append("/-- save_context: `econ->save_csp = %s;` -/\ndef saveContextSaveCsp (csp : Nat) : Nat := %s" % (m_csp.group(1), expr(m_csp.group(1))))
+        test = re.search(r"if\s*\(csp\s*==\s*&control_stack\[CONFIG_INT\s*\(__MAX_CALL_DEPTH__\)\s*-\s*(\d+)\]\)", sc)
+        link = sc.find("current_error_context = econ")
+        need("save_context", test and link >= 0, "depth test / linking")
+        out.append("/-- save_context: the frame index of the depth test is MaxCallDepth - this -/\ndef saveContextDepthOffset : Nat := %s" % test.group(1))
+        ret0 = sc.find("return 0", test.start())
+        out.append("/-- save_context: the refusal (`return 0`) comes before the context is linked into the chain -/\n"
+                   "def saveContextRefusesBeforeLinking : Bool := %s" % ("true" if 0 <= ret0 < link else "false"))
+        out.append("/-- save_context stores the two guards (save_object_limits) and command_giver -/\ndef saveContextSavesGuards : Bool := %s"
+                   % ("true" if "save_object_limits" in sc and "save_command_giver = command_giver" in sc else "false"))
+        rc = body("src/error_context.c", "restore_context")
+        m_off = re.search(r"csp\s*=\s*econ->save_csp\s*\+\s*(\d+)\s*;", rc)
+        need("restore_context", m_off, "csp = econ->save_csp + 1")
+        out.append("/-- restore_context: `csp = econ->save_csp + %s` then ONE pop_control_stack -/\ndef restoreCspOffset : Nat := %s" % (m_off.group(1), m_off.group(1)))
+        m_pop = re.search(r"([^\n]*)\n\s*pop_n_elems\s*\(sp\s*-\s*econ->save_sp\)\s*;", rc)
+        need("restore_context", m_pop, "pop_n_elems (sp - econ->save_sp)")
+        guarded = bool(re.search(r"\b(if|while)\b", m_pop.group(1)))
+        out.append("/-- restore_context: `pop_n_elems (sp - econ->save_sp)` is not guarded by a condition -/\n"
+                   "def restorePopsUnconditionally : Bool := %s" % ("false" if guarded else "true"))
+        out.append("/-- restore_context restores command_giver and the two guards -/\ndef restoreRestoresCgAndGuards : Bool := %s"
+                   % ("true" if "command_giver = econ->save_command_giver" in rc and "restore_object_limits" in rc else "false"))
+        pops = len(re.findall(r"pop_control_stack\s*\(\)", rc))
+        out.append("/-- restore_context: number of pop_control_stack() calls -/\ndef restorePopFrameCalls : Nat := %d" % pops)
+        pc = body("src/error_context.c", "pop_context")
+        out.append("/-- pop_context relinks the chain and clears the error state -/\ndef popContextRelinksAndClears : Bool := %s"
+                   % ("true" if re.search(r"current_error_context\s*=\s*econ->save_context", pc) and "clear_error_state" in pc else "false"))
+        eh = body("src/error_context.c", "error_handler")
+        first_if = eh.find("if (current_error_context")
+        r1, r2 = eh.find("reset_destruct_object_limits"), eh.find("reset_load_object_limits")
+        need("error_handler", first_if >= 0, "catch branch")
+        out.append("/-- error_handler: both guard resets precede the catch branch -/\ndef errorHandlerResetsGuardsFirst : Bool := %s"
+                   % ("true" if 0 <= r1 < first_if and 0 <= r2 < first_if else "false"))
+        for fn, path, lean in (("safe_apply", "src/apply.c", "safeApply"), ("safe_call_function_pointer", "lib/lpc/functional.c", "safeFp")):
+            b = body(path, fn)
+            m = re.search(r"econ\.save_sp\s*=\s*([^;]+);", b)
+            rhs = m.group(1) if m else "sp"
+            out.append("/-- %s: recovery point `econ.save_sp = %s` -/\ndef %sSaveSp (sp numArg : Nat) : Nat := %s" % (fn, rhs, lean, expr(rhs)))
+            after = b[b.find("restore_context"):] if "restore_context" in b else ""
+            out.append("/-- %s: no `pop_n_elems (num_arg)` after restore_context -/\ndef %sPopsArgsAfterRestore : Bool := %s"
+                       % (fn, lean, "true" if re.search(r"pop_n_elems\s*\(num_arg\)", after) else "false"))
+        dc = body("src/frame.c", "do_catch")
+        out.append("/-- do_catch: the limit bit is set again after pop_context, before the re-raise -/\ndef catchKeepsLimitBit : Bool := %s"
+                   % ("true" if re.search(r"pop_context\s*\(&econ\);\s*set_error_state\s*\(ES_STACK_FULL\)", dc) else "false"))
+        out.append("/-- do_catch: save_context, then push_control_stack (FRAME_CATCH), then setjmp -/\ndef catchPushesFrameRightAfterSave : Bool := %s"
+                   % ("true" if 0 <= dc.find("save_context") < dc.find("push_control_stack (FRAME_CATCH)") < dc.find("setjmp") else "false"))
+        pcs = body("src/frame.c", "push_control_stack")
+        t2 = re.search(r"CONFIG_INT\s*\(__MAX_CALL_DEPTH__\)\s*-\s*(\d+)", pcs)
+        need("push_control_stack", t2, "depth test")
+        out.append("/-- push_control_stack: the frame index of the depth test is MaxCallDepth - this -/\ndef pushDepthOffset : Nat := %s" % t2.group(1))
+        return "\n".join(out) + "\n"
 
     def prepare(self, ctx):
         self.exe = E.compile_harness("c05", [os.path.join(E.VERIF, "harness/c05/c05.c")])
